@@ -83,16 +83,27 @@ def gen(rng, tier):
     to = rng.choice([0, 0, 1, 3, 5, 5, 5, 8, 10, 15, 25])
     delay = rng.choice([0, 0, 0, 1, 3, 10])
     strat = rng.choice(STRATS)
+    # several wrappers in one case (pools configured alike): more often round-robin, more often from one config value
+    nw = rng.choice([2, 2, 2, 3]) if rng.random() < 0.22 else 1
+    if nw > 1 and rng.random() < 0.5:
+        strat = "rr"
+    if nw > 1 and n == 1 and rng.random() < 0.7:
+        n = rng.choice([2, 2, 3])
     words = dict(n=n, sth=sth, fth=fth, iv=iv, to=to, delay=delay, strat=strat)
     extra = []
+    if nw > 1:
+        extra.append("wrappers=%d" % nw)
     # construction path: the wrapper builder's own setters, or a stand-alone HealthCheckConfig handed over by with_config
-    if rng.random() < 0.35:
+    if rng.random() < (0.35 if nw == 1 else 0.6):
         extra.append("via=cfg")
+        if nw > 1 and rng.random() < 0.25:
+            # a config value built separately for each wrapper (default: clones of one value)
+            extra.append("share=0")
         if rng.random() < 0.7:
             extra.append("cb=1")
         if rng.random() < 0.3:
             # setters that are not called keep the crate's defaults (5 s / 500 ms / 2 s / 1 / 2 / first-available)
-            for k in rng.sample(["iv", "delay", "to", "sth", "fth", "strat"], rng.randint(1, 3)):
+            for k in rng.sample(["iv", "delay", "to", "sth", "fth"] + ([] if nw > 1 and strat == "rr" else ["strat"]), rng.randint(1, 3)):
                 del words[k]
         if rng.random() < 0.25:
             extra.append("pre=" + _setters(rng, to, iv))
@@ -112,23 +123,35 @@ def gen(rng, tier):
         ops.append("probe all")
     if e["via"] and rng.random() < 0.5:
         ops.append("probe config")
-    for r in range(n):
-        if rng.random() < 0.9:
-            ops.append("manual script r=%d seq=%s" % (r, ",".join(_seq(rng, rng.randint(3, 30), to, iv))))
+    def wx(j):
+        """the word naming wrapper j (wrapper 0 is also the default)"""
+        return " w=%d" % j if j > 0 or (nw > 1 and rng.random() < 0.3) else ""
+
+    for j in range(nw):
+        for r in range(n):
+            if rng.random() < 0.9:
+                # further wrappers: mostly quiet pools (passing results), so that selections have something to go round
+                seq = _seq(rng, rng.randint(3, 30), to, iv) if j == 0 or rng.random() < 0.5 else [rng.choice("hhhd") for _ in range(rng.randint(3, 12))]
+                ops.append("manual script r=%d%s seq=%s" % (r, wx(j), ",".join(seq)))
 
     def observe():
-        ops.append("probe all")
-        for r in range(n):
-            if rng.random() < 0.6:
-                ops.append("probe details r=%d" % r)
-            elif rng.random() < 0.3:
-                ops.append("probe status r=%d" % r)
+        for j in range(nw):
+            if j == 0 or rng.random() < 0.9:
+                ops.append("probe all" + wx(j))
+            for r in range(n):
+                if rng.random() < (0.6 if j == 0 else 0.2):
+                    ops.append("probe details r=%d%s" % (r, wx(j)))
+                elif rng.random() < 0.3:
+                    ops.append("probe status r=%d%s" % (r, wx(j)))
         k = rng.random()
-        if k < 0.45:
+        if k < (0.45 if nw == 1 else 0.7):
             burst = rng.choice([1, 2, n, n + 1, 2 * n + 1]) if strat in ("rr", "random") else rng.choice([1, 1, 2])
             which = rng.choice(["get_healthy", "get_usable", "mixed"])
-            for _ in range(max(1, burst)):
-                ops.append("probe " + (which if which != "mixed" else rng.choice(["get_healthy", "get_usable"])))
+            # several wrappers: the selections interleaved — alternately, in runs, at random
+            order = rng.choice(["alt", "alt", "runs", "rand"])
+            for i in range(max(1, burst) * nw):
+                j = i % nw if order == "alt" else (i // 2) % nw if order == "runs" else rng.randrange(nw)
+                ops.append("probe " + (which if which != "mixed" else rng.choice(["get_healthy", "get_usable"])) + wx(j))
 
     # start() again / stop() while checks are in flight, in a share of the cases
     lifecycle = rng.random() < 0.3 or "start=0" in extra
@@ -157,26 +180,28 @@ def gen(rng, tier):
             observe()
         x = rng.random()
         if x < 0.10 and n > 0:
-            ops.append("manual script r=%d seq=%s" % (rng.randrange(n), ",".join(_seq(rng, rng.randint(1, 8), to, iv))))
+            ops.append("manual script r=%d%s seq=%s" % (rng.randrange(n), wx(rng.randrange(nw)), ",".join(_seq(rng, rng.randint(1, 8), to, iv))))
         elif x < 0.14:
             ops.append(rng.choice(["probe status r=%d" % (n + rng.randint(0, 3)), "manual script r=%d seq=h" % (n + 1),
                                    "manual script r=0 seq=h,zz", "manual script r=0", "probe frobnicate", "manual reset",
                                    "probe details r=%d" % (n + 2), "probe status", "probe u8", "probe u8 v=%d" % rng.choice([256, 300, 1000]),
-                                   "probe fresh", "probe fresh n=9"]))
+                                   "probe fresh", "probe fresh n=9", "probe all w=%d" % (nw + rng.randint(0, 2)),
+                                   "manual stop w=%d" % nw, "probe get_healthy w=%d" % (nw + 1), "probe w=%d" % rng.randint(0, nw)]))
         elif x < 0.17:
             ops.append(rng.choice(["probe u8 v=%d" % rng.choice([0, 1, 2, 3, 4, 99, 255]), "probe fresh n=%d" % rng.randint(0, 4), "probe config"]))
         if lifecycle and rng.random() < 0.18:
             y = rng.random()
+            wj = wx(rng.randrange(nw))
             if y < 0.5:
-                ops.append("manual start")
+                ops.append("manual start" + wj)
             elif y < 0.8:
-                ops.append("manual stop")
+                ops.append("manual stop" + wj)
                 if rng.random() < 0.5:
                     # statuses after stop(): the checks in flight still complete, nothing new starts
                     ops.append("adv %d" % rng.choice([1, max(to, 1), ivx, ivx * 3, max(to, 1) + ivx]))
                     observe()
             else:
-                ops += ["manual stop", "manual start"] if rng.random() < 0.5 else ["manual start", "manual start"]
+                ops += ["manual stop" + wj, "manual start" + wj] if rng.random() < 0.5 else ["manual start" + wj, "manual start" + wj]
     observe()
     return {"header": header, "ops": ops}
 
@@ -189,6 +214,50 @@ def _cfg(case):
 
 
 FULL = {"h": "healthy", "d": "degraded", "u": "unhealthy", "k": "unknown"}
+
+
+def _wrapper_of(line):
+    """-> (wrapper, the line without its `w<j> ` prefix): lines of wrapper 0 carry no prefix"""
+    ws = line.split()
+    i = 1 if ws and ws[0].startswith("t=") else 0
+    if len(ws) > i and len(ws[i]) > 1 and ws[i][0] == "w" and ws[i][1:].isdigit():
+        return int(ws[i][1:]), " ".join(ws[:i] + ws[i + 1:])
+    return 0, line
+
+
+def _nwrappers(case):
+    return max(1, _nat(kvs(case["header"]).get("wrappers"), 1))
+
+
+def _by_wrapper(case, lines):
+    """the log of each wrapper of the case (prefix removed)"""
+    out = {j: [] for j in range(_nwrappers(case))}
+    for l in lines:
+        j, l0 = _wrapper_of(l)
+        out.setdefault(j, []).append(l0)
+    return out
+
+
+def per_wrapper(mon):
+    """a wrapper is a wrapper: every clause of the property is about ONE wrapper's resources, checks and selections —
+    the monitor runs over each wrapper's own lines, whatever the other wrappers of the case do in between"""
+    def run(case, lines, meta):
+        if _nwrappers(case) == 1 and not any(_wrapper_of(l)[0] for l in lines):
+            return mon(case, lines, meta)
+        for j, ls in sorted(_by_wrapper(case, lines).items()):
+            msg = mon(case, ls, meta)
+            if msg:
+                return "wrapper %d of %d%s: %s" % (j, _nwrappers(case), _how_built(case), msg)
+        return None
+    run.__doc__ = mon.__doc__
+    return run
+
+
+def _how_built(case):
+    c = kvs(case["header"])
+    if c.get("via") != "cfg":
+        return " (each configured by the builder's setters)"
+    return " (built from one config value each)" if c.get("share") == "0" else " (built from clones of ONE HealthCheckConfig)"
 
 
 def _events(lines):
@@ -391,14 +460,33 @@ def mon_selection(case, lines, meta):
     return None
 
 
+def _group_wrappers(lines):
+    """the tasks of different wrappers are independent tasks of one runtime: what the lines of one instant say is
+    compared wrapper by wrapper (stable: the order of each wrapper's own lines is kept)"""
+    if not any(_wrapper_of(l)[0] for l in lines):
+        return lines
+    out, run, t0 = [], [], None
+    for l in lines + [None]:
+        t = tparse(l)[0] if l is not None else None
+        if l is None or t != t0:
+            out.extend(x for _, _, x in sorted(run, key=lambda e: (e[0], e[1])))
+            run, t0 = [], t
+        if l is not None:
+            run.append((_wrapper_of(l)[0], len(run), l))
+    return out
+
+
 def canon(lines):
     """completions of one round that fall on the same instant are independent tasks woken by the
     timer wheel in its own order: compare adjacent completion lines of one instant as a set"""
     out = []
     run = []
-    for l in lines:
-        t, w = tparse(l)
+    for l in _group_wrappers(lines):
+        t, w = tparse(_wrapper_of(l)[1])
         is_c = bool(w) and w[0] in ("check_done", "check_drop")
+        if is_c and run and _wrapper_of(run[0])[0] != _wrapper_of(l)[0]:
+            out.extend(sorted(run))
+            run = []
         if is_c and run and tparse(run[0])[0] == t:
             run.append(l)
             continue
@@ -411,6 +499,27 @@ def canon(lines):
 
 
 def transitions(case, lines, meta=None):
+    nw = _nwrappers(case)
+    if nw == 1:
+        return _transitions1(case, lines, meta)
+    hk = kvs(case["header"])
+    tags = ["several-wrappers", "wrappers-of-one-config" if hk.get("via") == "cfg" and hk.get("share") != "0" else "wrappers-configured-separately"]
+    for j, ls in sorted(_by_wrapper(case, lines).items()):
+        tags += _transitions1(case, ls, meta)
+    prev = None
+    for l in lines:
+        j, l0 = _wrapper_of(l)
+        w = tparse(l0)[1]
+        if len(w) >= 4 and w[0] == "probe" and w[1] in ("get_healthy", "get_usable") and w[3] != "none":
+            if prev is not None and prev != j:
+                tags.append("selections-of-wrappers-interleaved")
+                if _cfg(case)[3] == "rr":
+                    tags.append("rr-selections-of-wrappers-interleaved")
+            prev = j
+    return tags
+
+
+def _transitions1(case, lines, meta=None):
     n, sth, fth, strat = _cfg(case)
     e = _eff(case["header"])
     hk = kvs(case["header"])
@@ -520,7 +629,9 @@ ALL_TRANSITIONS = ["done-h", "done-d", "done-u", "done-k", "timeout", "two-round
                    "via-cfg", "crate-default-used", "setter-after-with_config", "setter-before-with_config", "closure-checker",
                    "timeout-0-cut-off-at-first-poll", "two-completions-one-resource-one-instant", "completes-after-stop",
                    "two-checks-of-one-resource-in-flight", "start-after-stop", "start-again", "restart-with-checks-in-flight",
-                   "stop", "stop-with-checks-in-flight", "cb-change", "cb-failed", "probe-config", "probe-u8", "probe-fresh"]
+                   "stop", "stop-with-checks-in-flight", "cb-change", "cb-failed", "probe-config", "probe-u8", "probe-fresh",
+                   "several-wrappers", "wrappers-of-one-config", "wrappers-configured-separately", "selections-of-wrappers-interleaved",
+                   "rr-selections-of-wrappers-interleaved"]
 
 
 def nontrivial(case, lines, tags):
@@ -546,7 +657,10 @@ LEVEL_NOTE = ("Trusted: Lean kernel; the transcription of tokio's interval (Miss
               "setters before/after with_config), closure checker, start() again / stop() with checks in flight (the spawned checks are not aborted "
               "and still complete: the model keeps them), observer callbacks (recorded always, hidden when not registered: not an input of the "
               "model's transition function). The order in which checks that complete at one instant are processed is taken from the implementation "
-              "(@o= words, any order of the due checks is allowed): with two checks of one resource in flight after a restart it decides the outcome.")
+              "(@o= words, any order of the due checks is allowed): with two checks of one resource in flight after a restart it decides the outcome. "
+              "Several wrappers in one case (wrappers=<k>, with via=cfg built from clones of ONE HealthCheckConfig value): the model is the family of k "
+              "single-wrapper models (own statuses, counters, periodic task, round-robin cursor); the logs are compared wrapper by wrapper within one instant "
+              "(the tasks of different wrappers are independent tasks of one runtime), every monitor runs over each wrapper's own lines.")
 
 SPECS = {
     "C18": {
@@ -554,8 +668,8 @@ SPECS = {
         "module": "TR.Props.C18",
         "gen": gen,
         "canon": canon,
-        "monitors": [("c18-status-flips-only-at-thresholds", mon_thresholds), ("c18-selection-sound-and-even", mon_selection), ("c18-timed-out-means-timeout-elapsed", mon_timeout_due),
-                     ("c18-slow-check-counts-as-failed", mon_slow_is_failed)],
+        "monitors": [("c18-status-flips-only-at-thresholds", per_wrapper(mon_thresholds)), ("c18-selection-sound-and-even", per_wrapper(mon_selection)),
+                     ("c18-timed-out-means-timeout-elapsed", per_wrapper(mon_timeout_due)), ("c18-slow-check-counts-as-failed", per_wrapper(mon_slow_is_failed))],
         "transitions": transitions,
         "nontrivial": nontrivial,
         "all_transitions": ALL_TRANSITIONS,
@@ -568,7 +682,9 @@ SPECS = {
                 "advances of interval-1/interval/interval+1, timeout+-1, multiples (missed ticks) and long jumps; after each advance all "
                 "statuses, details and bursts of get_healthy/get_usable; a stream of invalid operations; 35 % of the cases built through HealthCheckConfig::builder() + "
                 "with_config (setters omitted -> crate defaults 5 s / 500 ms / 2 s, wrapper-builder setters before/after with_config, callbacks registered), 25 % with a "
-                "closure checker, 30 % with start() again / stop() / start() after stop() between rounds, 8 % started late; probes of the config getters, "
+                "closure checker, 30 % with start() again / stop() / start() after stop() between rounds, 8 % started late; 22 % with 2-3 wrappers in one case "
+                "(60 % of them built from clones of ONE HealthCheckConfig value, a quarter of those from a value each; half round-robin), every op addressed to one of "
+                "them, selections interleaved alternately / in runs / at random; probes of the config getters, "
                 "HealthStatus<->u8, fresh contexts + Selector closure + extensions; timeout 0 in 2 of 11 cases with checks of every latency. distinct = distinct implementation "
                 "event log; non-trivial = a timed-out check, a flip to/from unhealthy, or a status held against counters below threshold",
         "trusted": ["tokio interval/timeout/spawn semantics as transcribed in TR.Model.Health (sampled by the correspondence check)",
@@ -585,7 +701,9 @@ SPECS = {
                       "unknown_changes_nothing_log, got_sound_log, got_none_log; round-robin: round_robin_rounds, round_robin_balanced, "
                       "round_robin_pick_formula, round_robin_fair_across_changes, shared_cursor_one_rotation, shared_cursor_counts_both_methods, "
                       "rr_selection_line_is_the_rotation, clamped_cursor_is_not_round_robin; Random: random_pick_is_eligible, "
-                      "random_every_eligible_possible, random_observed_choice; fuel: quiesce_fuel_suffices, fuel_is_irrelevant}: "
+                      "random_every_eligible_possible, random_observed_choice; fuel: quiesce_fuel_suffices, fuel_is_irrelevant; several wrappers: "
+                      "wrappers_independent, other_wrappers_do_not_matter, cursor_moves_only_by_own_selection, selection_elsewhere_keeps_cursor, "
+                      "line_for_another_wrapper_is_idle, wrapper_is_single_run, per_wrapper_reachable_is_fold, round_robin_per_wrapper}: "
                       "for all sequences of completed checks (healthy/degraded/unhealthy/unknown/timed-out), all thresholds, any number of "
                       "resources and all strategies (custom = any function), every timeout (0 included), every sequence of operations incl. start()/stop(). "
                       "The model is tied to the real HealthCheckWrapper by agreement of "
